@@ -58,6 +58,11 @@ pub enum Ty {
     NilOwn,
     /// `crate::rt::OptU8`, a type alias of `Option<u8>` (nil-capable, not syntactically an `Option`)
     OptAlias,
+    /// `OwnNil` with only `decode_with` (NilOwnDec) or only `encode_with` (NilOwnEnc) forwarding to its own impls: a codec
+    /// attribute without `nil` / `is_nil` switches the trait-level nil handling off, so the field is mandatory and its
+    /// nil value is written as an explicit null
+    NilOwnDec,
+    NilOwnEnc,
     /// `Box<Option<T>>` (T an owned scalar leaf): a *mandatory* field whose value may be null - `Box` forwards neither
     /// `is_nil` nor `nil`, so the null is written explicitly and a missing field is an error
     BoxOpt(Box<Ty>),
@@ -74,6 +79,9 @@ pub struct Field {
     pub name: String,
     /// use the `#[cbor(n(..))]` spelling instead of `#[n(..)]`
     pub long_attr: bool,
+    /// a forwarding custom codec on an ordinary field: 1 = `decode_with`, 2 = `encode_with`, 3 = both (as separate
+    /// attributes); the functions forward to the type's own impls, so the bytes must not change
+    pub fwd: u8,
 }
 
 #[derive(Clone, Copy, Debug, PartialEq)]
@@ -160,7 +168,7 @@ pub fn can_encode_null(t: &Ty, u: &Universe) -> bool {
     match t {
         Ty::NilWith | Ty::NilFns | Ty::NilOwn | Ty::OptAlias => true,
         Ty::BoxOf(x) => can_encode_null(x, u),
-        Ty::BoxOpt(_) => true,
+        Ty::BoxOpt(_) | Ty::NilOwnDec | Ty::NilOwnEnc => true,
         Ty::Struct(i) => match &u.defs[*i] { Def::Struct(s) if s.transparent => s.fields.iter().any(|f| f.optional || can_encode_null(&f.ty, u)), _ => false },
         _ => false
     }
@@ -183,11 +191,11 @@ fn leaf_ty(r: &mut Rng, cfg: &GenCfg) -> Ty {
             0 => Ty::U8, 1 => Ty::U16, 2 => Ty::U32, 3 => Ty::U64, 4 => Ty::I8, 5 => Ty::I16, 6 => Ty::I32, 7 => Ty::I64,
             8 => Ty::Bool, 9 => Ty::Char, 10 => Ty::F32, 11 => Ty::F64, 12 | 13 => Ty::String, 14 => Ty::Str, 15 => Ty::CowStr,
             16 => Ty::BytesVec, 17 => Ty::BytesSlice, 18 => Ty::BytesArr4, 19 => Ty::CowBytes, 20 => Ty::ByteVec, 21 => Ty::ByteSliceRef,
-            22 => Ty::NilWith, 23 => Ty::NilFns, 24 => Ty::NilOwn, 25 => Ty::OptAlias, _ => Ty::U8
+            22 => Ty::NilWith, 23 => Ty::NilFns, 24 => Ty::NilOwn, 25 => Ty::OptAlias, _ => if r.bool_() { Ty::NilOwnDec } else { Ty::NilOwnEnc }
         };
         let lt = matches!(t, Ty::Str | Ty::CowStr | Ty::BytesSlice | Ty::CowBytes | Ty::ByteSliceRef);
         if lt && !cfg.allow_lifetimes { continue }
-        if ty_has_nil(&t) && !cfg.allow_custom { continue }
+        if (ty_has_nil(&t) || matches!(t, Ty::NilOwnDec | Ty::NilOwnEnc)) && !cfg.allow_custom { continue }
         if matches!(t, Ty::F32 | Ty::F64) && !cfg.allow_floats { continue }
         return t
     }
@@ -214,7 +222,7 @@ fn field_ty(r: &mut Rng, u: &Universe, cfg: &GenCfg, depth: usize) -> Ty {
 /// `with = minicbor::bytes` types and custom-codec types cannot be nested inside Vec/Box/Map (the codec attribute applies to the field).
 fn contains_field_level_codec(t: &Ty) -> bool {
     match t {
-        Ty::BytesVec | Ty::BytesSlice | Ty::BytesArr4 | Ty::CowBytes | Ty::NilWith | Ty::NilFns | Ty::NilOwn | Ty::OptAlias => true,
+        Ty::BytesVec | Ty::BytesSlice | Ty::BytesArr4 | Ty::CowBytes | Ty::NilWith | Ty::NilFns | Ty::NilOwn | Ty::OptAlias | Ty::NilOwnDec | Ty::NilOwnEnc => true,
         Ty::VecOf(x) | Ty::BoxOf(x) | Ty::MapU8(x) => contains_field_level_codec(x),
         _ => false
     }
@@ -261,13 +269,14 @@ fn gen_fields(r: &mut Rng, u: &Universe, cfg: &GenCfg, enc: Encoding, shape: Sha
         if all_optional && ty == Ty::Param { ty = Ty::U8 }
         let tag = if r.chance(18) { Some(*r.pick(&TAGS)) } else { None };
         let b = match ty { Ty::CowStr | Ty::CowBytes => r.chance(60), Ty::Str | Ty::BytesSlice | Ty::ByteSliceRef => r.chance(50), _ => must_be_b(&ty, u) };
-        fields.push(Field { idx: *i, b, ty, optional: optional || (all_optional && !nil_capable), tag, skip: false, name: format!("{}{}", prefix, k), long_attr: r.chance(25) });
+        let fwd = if cfg.allow_custom && matches!(ty, Ty::U8 | Ty::U16 | Ty::U32 | Ty::U64 | Ty::I8 | Ty::I16 | Ty::I32 | Ty::I64 | Ty::Bool | Ty::Char | Ty::F32 | Ty::F64 | Ty::String | Ty::ByteVec) && r.chance(12) { 1 + r.below(3) as u8 } else { 0 };
+        fields.push(Field { idx: *i, b, ty, optional: optional || (all_optional && !nil_capable), tag, skip: false, name: format!("{}{}", prefix, k), long_attr: r.chance(25), fwd });
     }
     // skipped fields (Default-able types), any position
     if !many && r.chance(20) {
         let pos = r.below(fields.len() + 1);
         let ty = r.pick(&[Ty::U8, Ty::String, Ty::Bool]).clone();
-        fields.insert(pos, Field { idx: 0, b: false, ty, optional: r.chance(30), tag: None, skip: true, name: format!("{}skipped", prefix), long_attr: false });
+        fields.insert(pos, Field { idx: 0, b: false, ty, optional: r.chance(30), tag: None, skip: true, name: format!("{}skipped", prefix), long_attr: false, fwd: 0 });
     }
     // permute the declaration order (indices stay attached to their fields)
     if r.chance(50) {
@@ -287,7 +296,7 @@ fn gen_struct(r: &mut Rng, u: &Universe, cfg: &GenCfg, name: String) -> StructDe
         let ty = if contains_field_level_codec(&ty) && ty_has_nil(&ty) { Ty::U32 } else { ty };
         let b = (matches!(ty, Ty::CowStr | Ty::CowBytes) && r.chance(60)) || must_be_b(&ty, u);
         return StructDef { name, shape, encoding: None, tag: None, transparent: true, generic: false,
-                           fields: vec![Field { idx: r.below(3) as u32, b, optional: r.chance(20) && !can_encode_null(&ty, u), ty, tag: None, skip: false, name: "inner".into(), long_attr: false }] }
+                           fields: vec![Field { idx: r.below(3) as u32, b, optional: r.chance(20) && !can_encode_null(&ty, u), ty, tag: None, skip: false, name: "inner".into(), long_attr: false, fwd: 0 }] }
     }
     let fields = gen_fields(r, u, cfg, enc, shape, 7, "f", false, generic);
     let tag = if r.chance(15) { Some(*r.pick(&TAGS)) } else { None };
@@ -377,7 +386,7 @@ fn new_optional_field(r: &mut Rng, u: &Universe, cfg: &GenCfg, fields: &[Field],
     let tag = if r.chance(35) { Some(*r.pick(&TAGS)) } else { None };
     let b = match ty { Ty::CowStr | Ty::CowBytes => r.chance(60), Ty::Str | Ty::BytesSlice | Ty::ByteSliceRef => r.chance(50), _ => must_be_b(&ty, u) };
     let nil = ty_has_nil(&ty);
-    Field { idx: fresh_index(r, fields, enc, also_used), b, ty, optional: !nil, tag, skip: false, name, long_attr: r.chance(25) }
+    Field { idx: fresh_index(r, fields, enc, also_used), b, ty, optional: !nil, tag, skip: false, name, long_attr: r.chance(25), fwd: 0 }
 }
 
 /// Apply 1..=4 documented-compatible edits. Returns the edited universe and a description of the edits.
@@ -495,7 +504,7 @@ pub fn gen_pair(r: &mut Rng, cfg: &GenCfg, focus: usize, prefix: &str) -> Option
             let mut u = Universe { defs: vec![Def::Enum(e)] };
             let mut s = plain_struct(r, &Universe { defs: vec![] }, cfg, format!("{}T1", prefix));
             let tag = if r.chance(25) { Some(*r.pick(&TAGS)) } else { None };
-            insert_first(&mut s, Field { idx: 0, b: false, ty: Ty::Enum(0), optional: true, tag, skip: false, name: "choice".into(), long_attr: r.bool_() }, r);
+            insert_first(&mut s, Field { idx: 0, b: false, ty: Ty::Enum(0), optional: true, tag, skip: false, name: "choice".into(), long_attr: r.bool_(), fwd: 0 }, r);
             u.defs.push(Def::Struct(s));
             fix_b(&mut u);
             let mut n = u.clone();
@@ -518,7 +527,7 @@ pub fn gen_pair(r: &mut Rng, cfg: &GenCfg, focus: usize, prefix: &str) -> Option
             let mut u = Universe { defs: vec![Def::Enum(e)] };
             let mut s = plain_struct(r, &Universe { defs: vec![] }, cfg, format!("{}T1", prefix));
             let optional = r.bool_();
-            insert_first(&mut s, Field { idx: 0, b: false, ty: Ty::Enum(0), optional, tag: None, skip: false, name: "state".into(), long_attr: false }, r);
+            insert_first(&mut s, Field { idx: 0, b: false, ty: Ty::Enum(0), optional, tag: None, skip: false, name: "state".into(), long_attr: false, fwd: 0 }, r);
             u.defs.push(Def::Struct(s));
             fix_b(&mut u);
             let mut n = u.clone();
